@@ -1017,3 +1017,72 @@ Proof.
   end.
   cbn [app]. repeat (apply Forall_cons; [assumption|]). apply Forall_nil.
 Qed.
+
+(* ------------------------------------------------------------------------------------------ *)
+(* The sequential conversation: EVERY frame written, in order (replies, 0x8003 echoes, commands) *)
+(* ------------------------------------------------------------------------------------------ *)
+Definition wtag (w : wire) : wkind * option dmsg := (w_kind w, w_src w).
+
+(* what one delivered message makes the server write *)
+Definition msg_writes (d : dmsg) : list (wkind * option dmsg) :=
+  if is_reissue d then [(WRereq, Some d)] else if answered d then [(WReply, Some d)] else [].
+
+Fixpoint items_writes (h : option msg) (its : list item) : list (wkind * option dmsg) :=
+  match its with
+  | [] => []
+  | IMsg d :: t =>
+    msg_writes d ++ items_writes (match h with Some _ => h | None => if joins d then Some (d_m d) else None end) t
+  | ICmd _ _ :: t => (match h with Some _ => [(WCmd, None)] | None => [] end) ++ items_writes h t
+  end.
+
+Lemma reissue_registered d : is_reissue d = true -> exists hi, lookup (m_id (d_m d)) = Some hi.
+Proof.
+  unfold is_reissue, REISSUE. intros H. apply N.eqb_eq in H. rewrite H. eexists. reflexivity.
+Qed.
+
+Lemma seq_moves_writes c d rest : idle c (d :: rest) ->
+  map wtag (writes (trace c (seq_moves d))) = msg_writes d.
+Proof.
+  destruct c as [pend hand q rq sq h]. unfold idle. cbn [c_hand c_q c_rq c_pending].
+  intros (-> & -> & -> & ->). unfold seq_moves, msg_writes. rewrite !trace_cons. cbn [trace]. rewrite app_nil_r.
+  cbn [step]. unfold reader_look. cbn [c_hand c_pending c_q c_rq c_seq c_h].
+  destruct (lookup (m_id (d_m d))) eqn:Hl; cbn [fst snd].
+  - unfold reader_send. cbn [c_hand c_pending c_q c_rq c_seq c_h].
+    destruct (is_reissue d) eqn:Hr.
+    + change (len (@nil dmsg) <? REISSUE_CAP) with true. cbn [fst snd app step].
+      unfold writer_rereq, emit. cbn [c_rq fst snd c_seq c_q c_h].
+      destruct (has_complete d); reflexivity.
+    + change (len (@nil dmsg) <? MSG_CAP) with true. cbn [fst snd app step].
+      replace (writes (if has_complete d then [OReadH d; OReadE d] else [])) with (@nil wire)
+        by (destruct (has_complete d); reflexivity).
+      rewrite writes_app.
+      replace (writes (if has_complete d then [OReadH d; OReadE d] else [])) with (@nil wire)
+        by (destruct (has_complete d); reflexivity).
+      cbn [app].
+      match goal with |- context [writer_reply ?c] => pose proof (writer_reply_spec c d [] eq_refl) as S end.
+      destruct (answered d).
+      * destruct S as (rid & body & h' & _ & _ & _ & ->). unfold emit. cbn [snd]. rewrite writes_cb2. reflexivity.
+      * destruct S as (h' & -> & _). reflexivity.
+  - assert (Hr : is_reissue d = false).
+    { destruct (is_reissue d) eqn:E; auto. destruct (reissue_registered d E) as [hi Hh]. congruence. }
+    rewrite Hr, (answered_unreg d Hl). unfold reader_send. cbn [c_hand fst snd step].
+    unfold writer_reply. cbn [c_q snd]. reflexivity.
+Qed.
+
+Theorem conversation_writes its : forall c h, idle c (items_msgs its) ->
+  map wtag (writes (trace c (items_moves h its))) = items_writes h its.
+Proof.
+  induction its as [|[d|cmd body] its IH]; intros c h I. reflexivity.
+  - cbn [items_moves items_writes]. rewrite trace_app, writes_app, map_app.
+    cbn [items_msgs flat_map app] in I.
+    rewrite (seq_moves_writes c d _ I). f_equal. apply IH. now apply seq_moves_idle.
+  - cbn [items_moves items_writes]. destruct h as [hh|]; cbn [app].
+    + rewrite trace_cons, writes_app, map_app.
+      change ((WCmd, @None dmsg) :: items_writes (Some hh) its) with ([(WCmd, @None dmsg)] ++ items_writes (Some hh) its).
+      f_equal. apply IH. apply cmd_idle. exact I.
+    + apply IH. exact I.
+Qed.
+
+Theorem conversation_writes_run its :
+  map wtag (writes (run_items its)) = items_writes None its.
+Proof. apply conversation_writes. apply init_idle. Qed.
